@@ -51,6 +51,71 @@ class CallGen(gen_tmpl.Gen):
         return {"package": "main", "templates": list(self.templates)}
 
 
+def gen_skeleton(rng, prefix):
+    """templates made of text lines, @children and @render with / without blocks only: the exact shape the Coq model
+    Runtime/Children.v speaks about; returns (abstract file, program in the model's encoding)"""
+    n = rng.randint(2, 5)
+    names = ["%sS%d" % (prefix, i) for i in range(n)]
+    counter = [0]
+
+    def block(depth, allowed):
+        nodes, enc = [], []
+        for _ in range(rng.randint(1, 3)):
+            k = rng.random()
+            if k < 0.35 or depth > 3 or not allowed:
+                counter[0] += 1
+                t = "t%d" % counter[0]
+                nodes.append(("text", [("s", t)]))
+                enc.append("L" + common.hx(t + "\n"))
+            elif k < 0.6:
+                nodes.append(("children",))
+                enc.append("C")
+            else:
+                j = rng.choice(allowed)
+                if rng.random() < 0.6:
+                    b, e = block(depth + 1, allowed)
+                    nodes.append(("render", names[j], b))
+                    enc.append("B%d(%s)" % (j, ",".join(e)))
+                else:
+                    nodes.append(("render", names[j], None))
+                    enc.append("R%d" % j)
+        return nodes, enc
+
+    templates, prog = [], []
+    for i in range(n):
+        body, enc = block(1, list(range(i)))     # calls go to earlier templates: no recursion without a bound
+        templates.append({"name": names[i], "layout": True, "body": body})
+        prog.append(",".join(enc))
+    return {"package": "main", "templates": templates}, "|".join(prog)
+
+
+def skeleton_correspondence(chk, rng, n):
+    """the Coq model of the children protocol against the real runtime and emitter"""
+    files, progs = {}, {}
+    for i in range(n):
+        f, prog = gen_skeleton(rng, "K%d" % i)
+        files["k%d" % i] = f
+        progs["k%d" % i] = prog
+    b = lrender.make_batch(files)
+    try:
+        env = gen_tmpl.gen_env(rng)
+        cases = [(k, idx, t["name"]) for k, f in files.items() if k not in b.rejected and k not in b.build_errors for idx, t in enumerate(f["templates"])]
+        res = b.run(["render %s buf %s" % (name, render.env_json(env)) for _, _, name in cases])
+    finally:
+        b.close()
+    model = common.run_lines_parallel(common.DRIVER, ["children %d %s" % (idx, progs[k]) for k, idx, _ in cases])
+    for (k, idx, name), r, m in zip(cases, res, model):
+        st, w = render.parse_render(r)
+        got = "ok " + common.hx(b"".join(w))
+        chk.case("skeleton:" + progs[k] + str(idx))
+        chk.count("children-model-program")
+        if st != "ok" or got != m:
+            chk.broke("correspondence", "L-CHILDREN", "Runtime/Children.v and the real runtime disagree", program=progs[k], entry=idx,
+                      template=gen_tmpl.print_file(files[k]), impl=got, model=m)
+        else:
+            chk.traces += 1
+
+
 def run(chk):
     br = common.build_all()
     chk.proof_step(br)
@@ -93,6 +158,7 @@ def run(chk):
             r = recs[-1]
             chk.samples.append({"template": gen_tmpl.print_file(r.file)[:700], "entry": r.tname, "rendered": r.got.decode("utf-8", "replace")[:300]})
         lrender.compile_correspondence(chk, files, ("cls", "perr", "gtext"))
+        skeleton_correspondence(chk, rng, 200 if quick else 5000)
     return chk.finish(level="proof", level_note=LEVEL_NOTE)
 
 
